@@ -21,18 +21,22 @@ PolyInside(r, z) == 2 * r > 3 /\ 2 * r < 13 /\ 2 * z > -5 /\ 2 * z < 5
 \* toroidal angles with rational (cos, sin)
 Angles == << <<1, 0, 1>>, <<3, 4, 5>>, <<0, 1, 1>>, <<-4, 3, 5>>, <<-1, 0, 1>>, <<5, -12, 13>> >>      \* <<c, s, h>>: cos = c/h, sin = s/h
 
-VARIABLES neg, A, B, r, z, ang
-vars == <<neg, A, B, r, z, ang>>
-Init == neg \in Negs /\ A \in {1, 2} /\ B \in {1, 3} /\ r \in Rs /\ z \in Zc /\ ang \in 1..Len(Angles)
+VARIABLES neg, A, B, r, z, ang,
+          off      \* the reported axis flux is s * off / 2: with off = 1 the gridded psi dips (marginally) beyond the reported
+                   \* axis value around the magnetic axis, as it does in real EFIT output
+vars == <<neg, A, B, r, z, ang, off>>
+Init == neg \in Negs /\ A \in {1, 2} /\ B \in {1, 3} /\ r \in Rs /\ z \in Zc /\ ang \in 1..Len(Angles) /\ off \in {0, 1}
+        /\ (off = 1 => ang = 1)
 Next == UNCHANGED vars
 Spec == Init /\ [][Next]_vars
 
 Sgn == IF neg THEN -1 ELSE 1
 Psi(rr, zz) == Sgn * (A * (rr - R0) * (rr - R0) + B * zz * zz)
-PsiAxis == 0
+PsiAxis == <<Sgn * off, 2>>
 PsiLcfs == Sgn * (A * 4 + B)                \* the surface through (R0 + 2, 1)
-\* normalised flux (psi - psi_axis) / (psi_lcfs - psi_axis), clamped at 0
-PsiN == LET q == RNorm(Psi(r, z) - PsiAxis, PsiLcfs - PsiAxis) IN IF q[1] < 0 THEN R(0) ELSE q
+\* normalised flux (psi - psi_axis) / (psi_lcfs - psi_axis), clamped at 0 (everywhere, also between the nodes: the
+\* harness evaluates the non-negativity at quarter points of the cells around each node)
+PsiN == LET q == RDiv(RSub(R(Psi(r, z)), PsiAxis), RSub(R(PsiLcfs), PsiAxis)) IN IF q[1] < 0 THEN R(0) ELSE q
 Inside == PolyInside(r, z) /\ RLeq(PsiN, R(1))
 \* a linear profile p(x) = 3 + 2 x of the normalised flux, and the value given outside
 Profile == RAdd(R(3), RMul(R(2), PsiN))
@@ -55,7 +59,7 @@ SameLength == PolDir[1] * PolDir[1] + PolDir[3] * PolDir[3] = NrmDir[1] * NrmDir
 \* the mapped function is constant on flux surfaces: nodes mirrored in z have the same value
 UpDownSymmetric == Psi(r, z) = Psi(r, -z)
 
-EmitCase == PrintT(ToJson([neg |-> neg, A |-> A, B |-> B, r |-> r, z |-> z, angle |-> Angles[ang], psin |-> PsiN, inside |-> Inside,
+EmitCase == PrintT(ToJson([off |-> off, neg |-> neg, A |-> A, B |-> B, r |-> r, z |-> z, angle |-> Angles[ang], psin |-> PsiN, inside |-> Inside,
                            map2d |-> Map2D, psi_axis |-> PsiAxis, psi_lcfs |-> PsiLcfs, grad |-> <<PsiR, PsiZ>>,
                            pol |-> PolDir, nrm |-> NrmDir, degenerate |-> Degenerate]))
 =============================================================================
